@@ -80,6 +80,8 @@ fn value_for(r: &mut Rng, w: u32) -> u128 {
         4 => 1,
         5 if w < 128 => max + 1, // one too large
         6 if w < 64 => (r.next() as u128) | (1u128 << w),
+        // exactly one excess bit anywhere above the view, low part arbitrary (a shifted or truncating range check misses some of these)
+        7 if w < 64 => (1u128 << r.range(w as u64, 63)) | (((r.next() as u128) & max) * r.below(2) as u128),
         _ => {
             let v = ((r.next() as u128) << 64) | r.next() as u128;
             v & max
